@@ -24,6 +24,17 @@ impl TagResolver<'_> {
     /// ITU-T X.680 | ISO/IEC 8824-1, 8.6
     /// ITU-T X.680 | ISO/IEC 8824-1, 41, table 8
     pub fn resolve_tag(&self, ty: &str) -> Option<Tag> {
+        self.resolve_tag_limited(ty, 0)
+    }
+
+    /// A definition that refers to itself without a tag in between (`A ::= A`,
+    /// `A ::= CHOICE { a A }`) has no tag, instead of recursing endlessly
+    const MAX_REFERENCE_DEPTH: usize = 64;
+
+    fn resolve_tag_limited(&self, ty: &str, depth: usize) -> Option<Tag> {
+        if depth > Self::MAX_REFERENCE_DEPTH {
+            return None;
+        }
         self.model
             .imports
             .iter()
@@ -35,11 +46,14 @@ impl TagResolver<'_> {
                     model,
                     scope: self.scope,
                 }
-                .resolve_tag(ty)
+                .resolve_tag_limited(ty, depth + 1)
             })
             .or_else(|| {
                 self.model.definitions.iter().find(|d| d.0.eq(ty)).and_then(
-                    |Definition(_name, asn)| asn.tag.or_else(|| self.resolve_type_tag(&asn.r#type)),
+                    |Definition(_name, asn)| {
+                        asn.tag
+                            .or_else(|| self.resolve_type_tag_limited(&asn.r#type, depth + 1))
+                    },
                 )
             })
     }
@@ -55,6 +69,10 @@ impl TagResolver<'_> {
     /// ITU-T X.680 | ISO/IEC 8824-1, 8.6
     /// ITU-T X.680 | ISO/IEC 8824-1, 41, table 8
     pub fn resolve_type_tag(&self, ty: &Type) -> Option<Tag> {
+        self.resolve_type_tag_limited(ty, 0)
+    }
+
+    fn resolve_type_tag_limited(&self, ty: &Type, depth: usize) -> Option<Tag> {
         match ty {
             Type::Boolean => Some(Tag::DEFAULT_BOOLEAN),
             Type::Integer(_) => Some(Tag::DEFAULT_INTEGER),
@@ -67,8 +85,8 @@ impl TagResolver<'_> {
             Type::String(_, Charset::Utf8) => Some(Tag::DEFAULT_UTF8_STRING),
             Type::String(_, Charset::Ia5) => Some(Tag::DEFAULT_IA5_STRING),
             Type::Null => Some(Tag::DEFAULT_NULL),
-            Type::Optional(inner) => self.resolve_type_tag(inner),
-            Type::Default(inner, ..) => self.resolve_type_tag(inner),
+            Type::Optional(inner) => self.resolve_type_tag_limited(inner, depth),
+            Type::Default(inner, ..) => self.resolve_type_tag_limited(inner, depth),
             Type::Sequence(_) => Some(Tag::DEFAULT_SEQUENCE),
             Type::SequenceOf(_, _) => Some(Tag::DEFAULT_SEQUENCE_OF),
             Type::Set(_) => Some(Tag::DEFAULT_SET),
@@ -82,7 +100,10 @@ impl TagResolver<'_> {
                             .map(|extension_after| extension_after + 1)
                             .unwrap_or_else(|| choice.len()),
                     )
-                    .map(|v| v.tag().or_else(|| self.resolve_type_tag(v.r#type())))
+                    .map(|v| {
+                        v.tag()
+                            .or_else(|| self.resolve_type_tag_limited(v.r#type(), depth))
+                    })
                     .collect::<Option<Vec<Tag>>>()?;
                 tags.sort();
                 if cfg!(feature = "debug-proc-macro") {
@@ -91,7 +112,7 @@ impl TagResolver<'_> {
                 tags.into_iter().next()
             }
             Type::TypeReference(inner, tag) => {
-                let tag = (*tag).or_else(|| self.resolve_tag(inner.as_str()));
+                let tag = (*tag).or_else(|| self.resolve_tag_limited(inner.as_str(), depth + 1));
                 if cfg!(feature = "debug-proc-macro") {
                     println!("resolved :: {}::Tag = {:?}", inner, tag);
                 }
